@@ -160,13 +160,13 @@ type Obs struct {
 	HeadHeight uint64            `json:"head_height"`
 	HeadQN     uint64            `json:"head_qn"`
 	StateOpens bool              `json:"state_opens"`
-	Heights    map[string]string `json:"heights"`      // height -> hash returned by the height index ("" = none)
-	HeightBody map[string]bool   `json:"height_body"`  // height -> QueryBlock(h) returned a body (hash index contains it)
-	Walk       []string          `json:"walk"`         // head, parent, ..., until genesis or a missing link
-	WalkOK     bool              `json:"walk_ok"`      // reached genesis
-	HasHash    map[string]bool   `json:"has_hash"`     // block name -> hash index contains it
+	Heights    map[string]string `json:"heights"`     // height -> hash returned by the height index ("" = none)
+	HeightBody map[string]bool   `json:"height_body"` // height -> QueryBlock(h) returned a body (hash index contains it)
+	Walk       []string          `json:"walk"`        // head, parent, ..., until genesis or a missing link
+	WalkOK     bool              `json:"walk_ok"`     // reached genesis
+	HasHash    map[string]bool   `json:"has_hash"`    // block name -> hash index contains it
 	Tx         map[string]TxObs  `json:"tx"`
-	MemHead    string            `json:"mem_head"`     // TopBlock() (in-memory) vs stored latest
+	MemHead    string            `json:"mem_head"` // TopBlock() (in-memory) vs stored latest
 }
 
 type RunOut struct {
